@@ -1209,4 +1209,585 @@ theorem readlist_neg (s : Stream) (ts : List Tok) (n : Int) (hn : n < 0) (hm : T
   rw [step_eq_core s _ (by intro h; cases h)]
   simp only [stepCore, readList, toDTs_neg ts n hn hm]
 
+/-! ### lists with one stretchy token -/
+
+theorem toDTs_append (a b : List Tok) :
+    toDTs (a ++ b) = (match toDTs a with
+      | .error e => .error e
+      | .ok da => match toDTs b with
+        | .error e => .error e
+        | .ok db => .ok (da ++ db)) := by
+  induction a with
+  | nil =>
+    simp only [List.nil_append, toDTs]
+    cases toDTs b <;> rfl
+  | cons t rest ih =>
+    simp only [List.cons_append, toDTs, ih]
+    cases t.toDT with
+    | error e => rfl
+    | ok d =>
+      simp only
+      cases toDTs rest with
+      | error e => rfl
+      | ok da =>
+        simp only
+        cases toDTs b <;> rfl
+
+theorem readItems_append (bits : Bits) (after : Int) (d1 d2 : List DT) (pos : Int) :
+    readItems bits after (d1 ++ d2) pos = (match readItems bits after d1 pos with
+      | .error e => .error e
+      | .ok (vs1, p1) => match readItems bits after d2 p1 with
+        | .error e => .error e
+        | .ok (vs2, p2) => .ok (vs1 ++ vs2, p2)) := by
+  induction d1 generalizing pos with
+  | nil =>
+    simp only [List.nil_append, readItems]
+    cases readItems bits after d2 pos with
+    | error e => rfl
+    | ok x => rfl
+  | cons d rest ih =>
+    simp only [List.cons_append, readItems]
+    cases resolve d (max ((bits.length : Int) - pos - after) 0) with
+    | error e => rfl
+    | ok r =>
+      simp only
+      cases readRDT bits pos r with
+      | error e => rfl
+      | ok x =>
+        obtain ⟨v, np⟩ := x
+        simp only [ih]
+        cases readItems bits after rest np with
+        | error e => rfl
+        | ok y =>
+          obtain ⟨vs1, p1⟩ := y
+          simp only
+          cases readItems bits after d2 p1 with
+          | error e => rfl
+          | ok z =>
+            obtain ⟨vs2, p2⟩ := z
+            simp only
+            split <;> rfl
+
+/-- For dtypes whose length is known, the second loop does not look at `bits_after_stretchy_token`. -/
+theorem readItems_known_after (bits : Bits) (after : Int) (ds : List DT) (pos : Int)
+    (hk : ∀ d ∈ ds, ∃ r, d = DT.known r) : readItems bits after ds pos = readItems bits 0 ds pos := by
+  induction ds generalizing pos with
+  | nil => rfl
+  | cons d rest ih =>
+    obtain ⟨r, hr⟩ := hk d (List.mem_cons_self ..)
+    subst hr
+    simp only [readItems, resolve]
+    cases readRDT bits pos r with
+    | error e => rfl
+    | ok x =>
+      obtain ⟨v, np⟩ := x
+      simp only
+      rw [ih np (fun d hd => hk d (List.mem_cons_of_mem _ hd))]
+
+/-- A dtype that may not follow a stretchy token: another stretchy one, or a variable-length one. -/
+def DT.blocksAfterStretchy : DT → Bool
+  | .stretchy _ => true
+  | .known (.var _) => true
+  | _ => false
+
+/-- First loop: once a stretchy token has been seen, a second one or a variable-length one is `Error`. -/
+theorem scan_has_err (ds : List DT) (a : Int) (h : ∃ d ∈ ds, d.blocksAfterStretchy = true) :
+    scanStretchy ds true a = .error .bitstring := by
+  induction ds generalizing a with
+  | nil => obtain ⟨d, hd, _⟩ := h; cases hd
+  | cons d rest ih =>
+    cases d with
+    | stretchy k => simp [scanStretchy]
+    | known r =>
+      cases r with
+      | var v => simp [scanStretchy]
+      | fixed k bl =>
+        simp only [scanStretchy]
+        apply ih
+        obtain ⟨d, hd, hb⟩ := h
+        cases hd with
+        | head => simp [DT.blocksAfterStretchy] at hb
+        | tail _ hm => exact ⟨d, hm, hb⟩
+
+theorem scan_stretchy_then_block (d1 : List DT) (k : Kind) (rest : List DT) (has : Bool) (a : Int)
+    (h : ∃ d ∈ rest, d.blocksAfterStretchy = true) :
+    scanStretchy (d1 ++ .stretchy k :: rest) has a = .error .bitstring := by
+  induction d1 generalizing has a with
+  | nil =>
+    simp only [List.nil_append, scanStretchy]
+    cases has
+    · simp only [Bool.false_eq_true, if_false]; exact scan_has_err rest a h
+    · simp
+  | cons d tl ih =>
+    have hmem : ∃ d ∈ tl ++ DT.stretchy k :: rest, d.blocksAfterStretchy = true :=
+      ⟨.stretchy k, by simp, rfl⟩
+    cases d with
+    | stretchy k' =>
+      simp only [List.cons_append, scanStretchy]
+      cases has
+      · simp only [Bool.false_eq_true, if_false]; exact scan_has_err _ a hmem
+      · simp
+    | known r =>
+      cases r with
+      | var v =>
+        simp only [List.cons_append, scanStretchy]
+        cases has
+        · simp only [Bool.false_eq_true, if_false]; exact ih false a
+        · simp
+      | fixed k' bl =>
+        simp only [List.cons_append, scanStretchy]
+        exact ih has _
+
+/-- Sum of the bit lengths of a list of fixed-length dtypes. -/
+def sumBl : List DT → Int
+  | [] => 0
+  | .known (.fixed _ bl) :: rest => bl + sumBl rest
+  | _ :: rest => sumBl rest
+
+def DT.isFixed : DT → Bool
+  | .known (.fixed _ _) => true
+  | _ => false
+
+theorem scan_fixed_true (ds : List DT) (a : Int) (hf : ∀ d ∈ ds, d.isFixed = true) :
+    scanStretchy ds true a = .ok (a + sumBl ds) := by
+  induction ds generalizing a with
+  | nil => simp [scanStretchy, sumBl]
+  | cons d rest ih =>
+    have hd := hf d (List.mem_cons_self ..)
+    cases d with
+    | stretchy k => simp [DT.isFixed] at hd
+    | known r =>
+      cases r with
+      | var v => simp [DT.isFixed] at hd
+      | fixed k bl =>
+        simp only [scanStretchy, if_true, sumBl]
+        rw [ih _ (fun d hd => hf d (List.mem_cons_of_mem _ hd))]
+        congr 1; omega
+
+theorem scan_known_prefix (d1 rest : List DT) (hk : ∀ d ∈ d1, ∃ r, d = DT.known r) :
+    scanStretchy (d1 ++ rest) false 0 = scanStretchy rest false 0 := by
+  induction d1 with
+  | nil => rfl
+  | cons d tl ih =>
+    obtain ⟨r, hr⟩ := hk d (List.mem_cons_self ..)
+    subst hr
+    cases r with
+    | var v => simp only [List.cons_append, scanStretchy, Bool.false_eq_true, if_false]; exact ih (fun d hd => hk d (List.mem_cons_of_mem _ hd))
+    | fixed k bl => simp only [List.cons_append, scanStretchy, Bool.false_eq_true, if_false]; exact ih (fun d hd => hk d (List.mem_cons_of_mem _ hd))
+
+/-- First loop on `known… , stretchy, fixed…`: `bits_after_stretchy_token` is the sum of the later bit lengths. -/
+theorem scan_one_stretchy (d1 : List DT) (k : Kind) (d2 : List DT)
+    (hk : ∀ d ∈ d1, ∃ r, d = DT.known r) (hf : ∀ d ∈ d2, d.isFixed = true) :
+    scanStretchy (d1 ++ .stretchy k :: d2) false 0 = .ok (sumBl d2) := by
+  rw [scan_known_prefix d1 _ hk]
+  simp only [scanStretchy, Bool.false_eq_true, if_false]
+  rw [scan_fixed_true d2 0 hf]; simp
+
+theorem toDT_fixedLen (t : Tok) (d : DT) (hf : t.isFixedLen = true) (h : t.toDT = .ok d) :
+    ∃ k bl, d = .known (.fixed k bl) ∧ t.need 0 = some bl := by
+  cases t with
+  | count n =>
+    simp only [Tok.toDT] at h
+    cases hm : mkDtype .bits n with
+    | error e => rw [hm] at h; cases h
+    | ok r =>
+      rw [hm] at h; cases h
+      obtain ⟨hr, _, _⟩ := mkDtype_ok .bits n r hm
+      exact ⟨.bits, n * Kind.bits.mult, by rw [hr], by simp [Tok.need, Kind.mult]⟩
+  | fixed k n =>
+    simp only [Tok.toDT] at h
+    cases hm : mkDtype k n with
+    | error e => rw [hm] at h; cases h
+    | ok r =>
+      rw [hm] at h; cases h
+      obtain ⟨hr, _, _⟩ := mkDtype_ok k n r hm
+      exact ⟨k, n * k.mult, by rw [hr], by simp [Tok.need]⟩
+  | stretchy k =>
+    cases k <;> simp [Tok.isFixedLen] at hf
+    simp only [Tok.toDT] at h
+    cases hm : mkDtype .bool 1 with
+    | error e => rw [hm] at h; cases h
+    | ok r =>
+      rw [hm] at h; cases h
+      obtain ⟨hr, _, _⟩ := mkDtype_ok .bool 1 r hm
+      exact ⟨.bool, 1 * Kind.bool.mult, by rw [hr], by simp [Tok.need, Kind.mult]⟩
+  | var v => simp [Tok.isFixedLen] at hf
+
+theorem toDTs_fixedLen (post : List Tok) (dpost : List DT) (hf : ∀ t ∈ post, t.isFixedLen = true)
+    (h : toDTs post = .ok dpost) : (∀ d ∈ dpost, d.isFixed = true) ∧ sumBl dpost = afterBits post := by
+  induction post generalizing dpost with
+  | nil => simp only [toDTs] at h; cases h; exact ⟨fun d hd => (by cases hd), rfl⟩
+  | cons t rest ih =>
+    simp only [toDTs] at h
+    cases hd : t.toDT with
+    | error e => rw [hd] at h; cases h
+    | ok d =>
+      rw [hd] at h
+      cases hds : toDTs rest with
+      | error e => rw [hds] at h; cases h
+      | ok ds' =>
+        rw [hds] at h; cases h
+        obtain ⟨k, bl, hk, hn⟩ := toDT_fixedLen t d (hf t (List.mem_cons_self ..)) hd
+        obtain ⟨ih1, ih2⟩ := ih ds' (fun t ht => hf t (List.mem_cons_of_mem _ ht)) hds
+        subst hk
+        constructor
+        · intro d' hd'
+          cases hd' with
+          | head => rfl
+          | tail _ hm => exact ih1 d' hm
+        · simp only [sumBl, afterBits, hn, ih2]
+
+theorem fixedLen_not_open (t : Tok) (h : t.isFixedLen = true) : t.isOpen = false := by
+  cases t with
+  | stretchy k => cases k <;> simp_all [Tok.isFixedLen, Tok.isOpen]
+  | _ => rfl
+
+theorem toDT_open (k : Kind) (h : (Tok.stretchy k).isOpen = true) : (Tok.stretchy k).toDT = .ok (.stretchy k) := by
+  cases k <;> simp_all [Tok.isOpen, Tok.toDT]
+
+/-- The two loops of `_read_dtype_list` on `pre…, stretchy k, post…` written out. -/
+theorem readList_one_stretchy (bits : Bits) (pos : Int) (pre post : List Tok) (k : Kind) (dpre dpost : List DT)
+    (hpre : ∀ t ∈ pre, t.isOpen = false) (hk : (Tok.stretchy k).isOpen = true)
+    (hpost : ∀ t ∈ post, t.isFixedLen = true)
+    (h1 : toDTs pre = .ok dpre) (h2 : toDTs post = .ok dpost) :
+    readList bits pos (pre ++ .stretchy k :: post) =
+      (match readItems bits 0 dpre pos with
+       | .error e => .error e
+       | .ok (vs1, p1) =>
+         match readItems bits (afterBits post) (.stretchy k :: dpost) p1 with
+         | .error e => .error e
+         | .ok (vs2, p2) => .ok (vs1 ++ vs2, p2)) := by
+  have hkn := toDTs_known pre dpre hpre h1
+  obtain ⟨hfx, hsum⟩ := toDTs_fixedLen post dpost hpost h2
+  unfold readList
+  rw [toDTs_append]
+  simp only [h1, toDTs, toDT_open k hk, h2]
+  rw [scan_one_stretchy dpre k dpost hkn hfx, hsum]
+  simp only
+  rw [readItems_append, readItems_known_after bits _ dpre pos hkn]
+  all_goals
+    cases readItems bits 0 dpre pos with
+    | error e => rfl
+    | ok x =>
+      obtain ⟨vs1, p1⟩ := x
+      simp only
+      cases readItems bits (afterBits post) (DT.stretchy k :: dpost) p1 with
+      | error e => rfl
+      | ok y => rfl
+
+theorem isFixed_known (ds : List DT) (hf : ∀ d ∈ ds, d.isFixed = true) : ∀ d ∈ ds, ∃ r, d = DT.known r := by
+  intro d hd
+  have := hf d hd
+  cases d with
+  | stretchy k => simp [DT.isFixed] at this
+  | known r => exact ⟨r, rfl⟩
+
+/-- The stretchy step of the second loop: with `avail` a whole number of items, the stretchy dtype reads exactly as
+    the concrete dtype `k:(avail / bits_per_item)`. -/
+theorem readItems_stretchy_head (bits : Bits) (A : Int) (k : Kind) (dpost : List DT) (p1 : Int) (r : RDT)
+    (hf : ∀ d ∈ dpost, d.isFixed = true)
+    (hdiv : (max ((bits.length : Int) - p1 - A) 0) % k.mult = 0)
+    (hm : mkDtype k ((max ((bits.length : Int) - p1 - A) 0) / k.mult) = .ok r) :
+    readItems bits A (.stretchy k :: dpost) p1 = readItems bits 0 (.known r :: dpost) p1 := by
+  simp only [readItems, resolve, hdiv, ne_eq, not_true_eq_false, if_false, hm]
+  cases readRDT bits p1 r with
+  | error e => rfl
+  | ok x =>
+    obtain ⟨v, np⟩ := x
+    simp only
+    rw [readItems_known_after bits A dpost np (isFixed_known dpost hf)]
+
+theorem readItems_stretchy_err (bits : Bits) (A : Int) (k : Kind) (dpost : List DT) (p1 : Int)
+    (h : (max ((bits.length : Int) - p1 - A) 0) % k.mult ≠ 0 ∨
+         ∃ e, mkDtype k ((max ((bits.length : Int) - p1 - A) 0) / k.mult) = .error e) :
+    ∃ e, readItems bits A (.stretchy k :: dpost) p1 = .error e := by
+  rcases h with h | ⟨e, h⟩
+  · exact ⟨.value, by simp only [readItems, resolve, h, ne_eq, not_false_eq_true, if_true]⟩
+  · by_cases hd : (max ((bits.length : Int) - p1 - A) 0) % k.mult ≠ 0
+    · exact ⟨.value, by simp only [readItems, resolve, hd, ne_eq, not_false_eq_true, if_true]⟩
+    · exact ⟨e, by simp only [readItems, resolve, hd, if_false, h]⟩
+
+theorem readItems_stretchy_rem (bits : Bits) (A : Int) (k : Kind) (dpost : List DT) (p1 : Int)
+    (h : (max ((bits.length : Int) - p1 - A) 0) % k.mult ≠ 0) :
+    readItems bits A (.stretchy k :: dpost) p1 = .error .value := by
+  simp only [readItems, resolve, h, ne_eq, not_false_eq_true, if_true]
+
+/-- `readSeq` on a list without open tokens is the second loop on its dtypes (`readSeq_iff` with the dtypes named). -/
+theorem readSeq_iff_ds (ts : List Tok) (ds : List DT) (s : Stream) (hi : Inv s)
+    (ho : ∀ t ∈ ts, t.isOpen = false) (hd : toDTs ts = .ok ds) (res : List Val × Int) :
+    readItems s.bits 0 ds s.pos = .ok res ↔ readSeq s ts = .ok res := by
+  rw [← readSeq_iff ts s hi ho res]
+  constructor
+  · intro h; exact ⟨ds, hd, h⟩
+  · rintro ⟨ds', hd', h⟩
+    rw [hd] at hd'; cases hd'; exact h
+
+theorem readSeq_ok_toDTs (ts : List Tok) (s : Stream) (hi : Inv s) (ho : ∀ t ∈ ts, t.isOpen = false)
+    (res : List Val × Int) (h : readSeq s ts = .ok res) : ∃ ds, toDTs ts = .ok ds := by
+  obtain ⟨ds, hd, _⟩ := (readSeq_iff ts s hi ho res).2 h
+  exact ⟨ds, hd⟩
+
+theorem toDTs_cons_fixed (k : Kind) (n : Nat) (post : List Tok) (dpost : List DT) (h2 : toDTs post = .ok dpost) :
+    toDTs (.fixed k n :: post) = (match mkDtype k n with
+      | .error e => .error e
+      | .ok r => .ok (.known r :: dpost)) := by
+  simp only [toDTs, Tok.toDT, h2]
+  cases mkDtype k n with
+  | error e => rfl
+  | ok r => rfl
+
+theorem readlist_stretchy_iff (s : Stream) (pre post : List Tok) (k : Kind) (hi : Inv s)
+    (hpre : ∀ t ∈ pre, t.isOpen = false) (hk : (Tok.stretchy k).isOpen = true)
+    (hpost : ∀ t ∈ post, t.isFixedLen = true) (vs : List Val) (p : Int) :
+    readList s.bits s.pos (pre ++ .stretchy k :: post) = .ok (vs, p) ↔ readSeqStretchy s pre k post = .ok (vs, p) := by
+  have hpost' : ∀ t ∈ post, t.isOpen = false := fun t ht => fixedLen_not_open t (hpost t ht)
+  unfold readSeqStretchy
+  cases h1 : toDTs pre with
+  | error e =>
+    have hL : readList s.bits s.pos (pre ++ .stretchy k :: post) = .error e := by
+      unfold readList; rw [toDTs_append, h1]
+    rw [hL]
+    cases hq : readSeq s pre with
+    | error e' => simp
+    | ok y =>
+      obtain ⟨ds, hd⟩ := readSeq_ok_toDTs pre s hi hpre y hq
+      rw [h1] at hd; cases hd
+  | ok dpre =>
+    cases h2 : toDTs post with
+    | error e =>
+      have hL : readList s.bits s.pos (pre ++ .stretchy k :: post) = .error e := by
+        unfold readList; rw [toDTs_append, h1]; simp only [toDTs, toDT_open k hk, h2]
+      rw [hL]
+      cases hq : readSeq s pre with
+      | error e' => simp
+      | ok y =>
+        obtain ⟨vs1, p1⟩ := y
+        simp only
+        split
+        · simp
+        · have hb := (readSeq_iff_ds pre dpre s hi hpre h1 (vs1, p1)).2 hq
+          have hwf := toDTs_wf pre dpre h1
+          have hr := readItems_ok s.bits 0 dpre s.pos vs1 p1 hwf hi.1 hi.2 hb
+          have hi1 : Inv { s with pos := p1 } := by have := hi.1; unfold Inv; simp only; omega
+          cases hq2 : readSeq { s with pos := p1 }
+              (.fixed k ((max (s.len - p1 - afterBits post) 0) / k.mult).toNat :: post) with
+          | error e' => simp
+          | ok z =>
+            have hno : ∀ t ∈ (Tok.fixed k ((max (s.len - p1 - afterBits post) 0) / k.mult).toNat :: post),
+                t.isOpen = false := by
+              intro t ht
+              cases ht with
+              | head => rfl
+              | tail _ hm => exact hpost' t hm
+            obtain ⟨ds, hd⟩ := readSeq_ok_toDTs _ _ hi1 hno z hq2
+            simp only [toDTs, h2] at hd
+            cases hc : (Tok.fixed k ((max (s.len - p1 - afterBits post) 0) / k.mult).toNat).toDT with
+            | error e'' => rw [hc] at hd; cases hd
+            | ok d => rw [hc] at hd; cases hd
+    | ok dpost =>
+      obtain ⟨hfx, _⟩ := toDTs_fixedLen post dpost hpost h2
+      rw [readList_one_stretchy s.bits s.pos pre post k dpre dpost hpre hk hpost h1 h2]
+      cases hr : readItems s.bits 0 dpre s.pos with
+      | error e =>
+        cases hq : readSeq s pre with
+        | error e' => simp
+        | ok y =>
+          have := (readSeq_iff_ds pre dpre s hi hpre h1 y).2 hq
+          rw [hr] at this; cases this
+      | ok x =>
+        obtain ⟨vs1, p1⟩ := x
+        have hq := (readSeq_iff_ds pre dpre s hi hpre h1 (vs1, p1)).1 hr
+        rw [hq]
+        simp only
+        have hwf := toDTs_wf pre dpre h1
+        have hb := readItems_ok s.bits 0 dpre s.pos vs1 p1 hwf hi.1 hi.2 hr
+        have hi1 : Inv { s with pos := p1 } := by have := hi.1; unfold Inv; simp only; omega
+        have hav : (0 : Int) ≤ max (s.len - p1 - afterBits post) 0 := by omega
+        have hq0 : (0 : Int) ≤ (max (s.len - p1 - afterBits post) 0) / k.mult := by
+          cases k <;> simp [Kind.mult] <;> omega
+        have hcast : (((max (s.len - p1 - afterBits post) 0) / k.mult).toNat : Int)
+            = (max (s.len - p1 - afterBits post) 0) / k.mult := by omega
+        have hno : ∀ t ∈ (Tok.fixed k ((max (s.len - p1 - afterBits post) 0) / k.mult).toNat :: post),
+            t.isOpen = false := by
+          intro t ht
+          cases ht with
+          | head => rfl
+          | tail _ hm => exact hpost' t hm
+        by_cases hdiv : (max (s.len - p1 - afterBits post) 0) % k.mult ≠ 0
+        · rw [if_pos hdiv]
+          have := readItems_stretchy_rem s.bits (afterBits post) k dpost p1 (by unfold Stream.len at hdiv; exact hdiv)
+          rw [this]
+        · rw [if_neg hdiv]
+          have hdiv' : (max (s.len - p1 - afterBits post) 0) % k.mult = 0 := by simpa using hdiv
+          cases hm : mkDtype k ((max (s.len - p1 - afterBits post) 0) / k.mult) with
+          | error e =>
+            obtain ⟨e1, he1⟩ := readItems_stretchy_err s.bits (afterBits post) k dpost p1 (Or.inr ⟨e, hm⟩)
+            rw [he1]
+            cases hq2 : readSeq { s with pos := p1 }
+                (.fixed k ((max (s.len - p1 - afterBits post) 0) / k.mult).toNat :: post) with
+            | error e' => simp
+            | ok z =>
+              obtain ⟨ds, hd⟩ := readSeq_ok_toDTs _ _ hi1 hno z hq2
+              rw [toDTs_cons_fixed k _ post dpost h2, hcast, hm] at hd
+              cases hd
+          | ok r =>
+            rw [readItems_stretchy_head s.bits (afterBits post) k dpost p1 r hfx hdiv' hm]
+            have hds : toDTs (.fixed k ((max (s.len - p1 - afterBits post) 0) / k.mult).toNat :: post)
+                = .ok (.known r :: dpost) := by
+              rw [toDTs_cons_fixed k _ post dpost h2, hcast, hm]
+            cases hr2 : readItems s.bits 0 (.known r :: dpost) p1 with
+            | error e =>
+              cases hq2 : readSeq { s with pos := p1 }
+                  (.fixed k ((max (s.len - p1 - afterBits post) 0) / k.mult).toNat :: post) with
+              | error e' => simp
+              | ok z =>
+                have := (readSeq_iff_ds _ _ { s with pos := p1 } hi1 hno hds z).2 hq2
+                simp only at this
+                rw [hr2] at this; cases this
+            | ok y =>
+              have := (readSeq_iff_ds _ _ { s with pos := p1 } hi1 hno hds y).1 hr2
+              rw [this]
+
+theorem toDTs_split (a : List Tok) (t : Tok) (b : List Tok) (ds : List DT) (h : toDTs (a ++ t :: b) = .ok ds) :
+    ∃ da d db, toDTs a = .ok da ∧ t.toDT = .ok d ∧ toDTs b = .ok db ∧ ds = da ++ d :: db := by
+  rw [toDTs_append] at h
+  cases ha : toDTs a with
+  | error e => rw [ha] at h; cases h
+  | ok da =>
+    rw [ha] at h
+    simp only [toDTs] at h
+    cases ht : t.toDT with
+    | error e => rw [ht] at h; cases h
+    | ok d =>
+      rw [ht] at h
+      cases hb : toDTs b with
+      | error e => rw [hb] at h; cases h
+      | ok db =>
+        rw [hb] at h
+        simp only [Except.ok.injEq] at h
+        exact ⟨da, d, db, rfl, rfl, rfl, h.symm⟩
+
+theorem readList_block_after_stretchy (bits : Bits) (pos : Int) (a : List Tok) (k : Kind) (b : List Tok) (t : Tok)
+    (c : List Tok) (hk : (Tok.stretchy k).isOpen = true) (ht : t.isOpen = true ∨ t.isVar = true)
+    (hc : ∃ ds, toDTs (a ++ .stretchy k :: (b ++ t :: c)) = .ok ds) :
+    readList bits pos (a ++ .stretchy k :: (b ++ t :: c)) = .error .bitstring := by
+  obtain ⟨ds, hds⟩ := hc
+  obtain ⟨da, d1, drest, _, hd1, hrest, hsplit⟩ := toDTs_split a _ _ ds hds
+  obtain ⟨db, d2, dc, _, hd2, _, hsplit2⟩ := toDTs_split b t c drest hrest
+  rw [toDT_open k hk] at hd1; cases hd1
+  have hblock : d2.blocksAfterStretchy = true := by
+    cases t with
+    | count n => simp [Tok.isOpen, Tok.isVar] at ht
+    | fixed k' n => simp [Tok.isOpen, Tok.isVar] at ht
+    | var v => simp only [Tok.toDT] at hd2; cases hd2; rfl
+    | stretchy k' =>
+      rcases ht with ht | ht
+      · rw [toDT_open k' ht] at hd2; cases hd2; rfl
+      · simp [Tok.isVar] at ht
+  unfold readList
+  rw [hds, hsplit]
+  simp only
+  rw [scan_stretchy_then_block da k drest false 0 ⟨d2, by rw [hsplit2]; simp, hblock⟩]
+
+theorem need_fixedLen (t : Tok) (hf : t.isFixedLen = true) (rem : Int) :
+    ∃ n, t.need rem = some n ∧ t.need 0 = some n := by
+  cases t with
+  | count n => exact ⟨n, rfl, rfl⟩
+  | fixed k n => exact ⟨_, rfl, rfl⟩
+  | var v => simp [Tok.isFixedLen] at hf
+  | stretchy k =>
+    cases k <;> first | exact ⟨1, rfl, rfl⟩ | (simp [Tok.isFixedLen] at hf)
+
+/-- Successive reads of fixed-length tokens advance by exactly the bits they ask for. -/
+theorem readSeq_fixed_advance (post : List Tok) (s : Stream) (hi : Inv s) (hf : ∀ t ∈ post, t.isFixedLen = true)
+    (vs : List Val) (p : Int) (h : readSeq s post = .ok (vs, p)) : p = s.pos + afterBits post ∧ p ≤ s.len := by
+  induction post generalizing s vs p with
+  | nil => simp only [readSeq] at h; cases h; simp [afterBits]; exact hi.2
+  | cons t rest ih =>
+    simp only [readSeq] at h
+    cases hr : readTok s t with
+    | error e => rw [hr] at h; cases h
+    | ok x =>
+      obtain ⟨v, np⟩ := x
+      rw [hr] at h
+      simp only at h
+      cases hq : readSeq { s with pos := np } rest with
+      | error e => rw [hq] at h; cases h
+      | ok y =>
+        obtain ⟨vs', fp⟩ := y
+        rw [hq] at h
+        simp only [Except.ok.injEq, Prod.mk.injEq] at h
+        obtain ⟨k, hk1, hk2, _, hk4⟩ := readTok_ok s t v np hi hr
+        have hi2 : Inv { s with pos := np } := by
+          have := hi.1; unfold Inv Stream.len at *; simp only; omega
+        obtain ⟨ih1, ih2⟩ := ih { s with pos := np } hi2 (fun t ht => hf t (List.mem_cons_of_mem _ ht)) vs' fp hq
+        obtain ⟨n, hn, hn0⟩ := need_fixedLen t (hf t (List.mem_cons_self ..)) (s.len - s.pos)
+        have hnk := hk4 n hn
+        simp only [afterBits, hn0]
+        simp only at ih1 ih2
+        unfold Stream.len at *
+        constructor
+        · rw [← h.2, ih1]; omega
+        · rw [← h.2]; exact ih2
+
+theorem readSeq_bounds (ts : List Tok) (s : Stream) (hi : Inv s) (ho : ∀ t ∈ ts, t.isOpen = false)
+    (vs : List Val) (p : Int) (h : readSeq s ts = .ok (vs, p)) : s.pos ≤ p ∧ p ≤ s.len := by
+  obtain ⟨ds, hd, hr⟩ := (readSeq_iff ts s hi ho (vs, p)).2 h
+  exact readItems_ok s.bits 0 ds s.pos vs p (toDTs_wf ts ds hd) hi.1 hi.2 hr
+
+theorem readSeqStretchy_consumes_all (s : Stream) (pre post : List Tok) (k : Kind) (hi : Inv s)
+    (hpre : ∀ t ∈ pre, t.isOpen = false) (hpost : ∀ t ∈ post, t.isFixedLen = true)
+    (vs : List Val) (p : Int) (h : readSeqStretchy s pre k post = .ok (vs, p)) : p = s.len := by
+  unfold readSeqStretchy at h
+  cases hq : readSeq s pre with
+  | error e => rw [hq] at h; cases h
+  | ok x =>
+    obtain ⟨vs1, p1⟩ := x
+    rw [hq] at h
+    simp only at h
+    obtain ⟨hb1, hb2⟩ := readSeq_bounds pre s hi hpre vs1 p1 hq
+    have hi1 : Inv { s with pos := p1 } := by have := hi.1; unfold Inv Stream.len at *; simp only; omega
+    by_cases hdiv : (max (s.len - p1 - afterBits post) 0) % k.mult ≠ 0
+    · rw [if_pos hdiv] at h; cases h
+    · rw [if_neg hdiv] at h
+      cases hq2 : readSeq { s with pos := p1 }
+          (.fixed k ((max (s.len - p1 - afterBits post) 0) / k.mult).toNat :: post) with
+      | error e => rw [hq2] at h; cases h
+      | ok y =>
+        obtain ⟨vs2, p2⟩ := y
+        rw [hq2] at h
+        simp only [Except.ok.injEq, Prod.mk.injEq] at h
+        have hfl : ∀ t ∈ (Tok.fixed k ((max (s.len - p1 - afterBits post) 0) / k.mult).toNat :: post),
+            t.isFixedLen = true := by
+          intro t ht
+          cases ht with
+          | head => rfl
+          | tail _ hm => exact hpost t hm
+        obtain ⟨ha, hle⟩ := readSeq_fixed_advance _ _ hi1 hfl vs2 p2 hq2
+        simp only [afterBits, Tok.need] at ha
+        have hdiv' : (max (s.len - p1 - afterBits post) 0) % k.mult = 0 := by simpa using hdiv
+        have hmul : (((max (s.len - p1 - afterBits post) 0) / k.mult).toNat : Int) * k.mult
+            = max (s.len - p1 - afterBits post) 0 := by
+          revert hdiv'
+          cases k <;> simp [Kind.mult] <;> omega
+        rw [hmul] at ha
+        have hle' : p2 ≤ (s.bits.length : Int) := hle
+        have ha' : p2 = p1 + (max (s.len - p1 - afterBits post) 0 + afterBits post) := ha
+        rw [← h.2]
+        unfold Stream.len at *
+        omega
+
+theorem readlist_stretchy_rem (s : Stream) (pre post : List Tok) (k : Kind) (hi : Inv s)
+    (hpre : ∀ t ∈ pre, t.isOpen = false) (hk : (Tok.stretchy k).isOpen = true)
+    (hpost : ∀ t ∈ post, t.isFixedLen = true) (vs1 : List Val) (p1 : Int)
+    (h : readSeq s pre = .ok (vs1, p1)) (hc : ∃ dpost, toDTs post = .ok dpost)
+    (hrem : (max (s.len - p1 - afterBits post) 0) % k.mult ≠ 0) :
+    readList s.bits s.pos (pre ++ .stretchy k :: post) = .error .value := by
+  obtain ⟨dpre, h1⟩ := readSeq_ok_toDTs pre s hi hpre _ h
+  obtain ⟨dpost, h2⟩ := hc
+  rw [readList_one_stretchy s.bits s.pos pre post k dpre dpost hpre hk hpost h1 h2]
+  rw [(readSeq_iff_ds pre dpre s hi hpre h1 (vs1, p1)).2 h]
+  simp only
+  rw [readItems_stretchy_rem s.bits (afterBits post) k dpost p1 (by unfold Stream.len at hrem; exact hrem)]
+
 end BM.C06
